@@ -473,6 +473,12 @@ namespace BitSerializer::Convert::Detail
 	{
 		const CDateTimeParts<> utc = ParseIsoUtc(in);
 
+		// The number of days must fit in int64_t, years outside this range would overflow the calculations below
+		constexpr int64_t maxYear = (std::numeric_limits<int64_t>::max() - 719468ll) / 146097ll * 400ll - 400ll;
+		if (utc.Year > maxYear || utc.Year < -maxYear) {
+			throw std::out_of_range("Target duration is not enough");
+		}
+
 		// Based on Howard Hinnant's algorithm
 		static_assert(sizeof(int) >= 4, "This algorithm has not been ported to a 16 bit integers");
 		auto const y = utc.Year - (utc.Month <= 2);
